@@ -4,6 +4,8 @@
 
 #include "rkcommon/utility/Any.h"
 
+#include <map>
+
 using namespace rkcommon::utility;
 using pbt::Op;
 using pbt::Tracked;
@@ -29,8 +31,18 @@ enum
   T_FLOAT,
   T_STRING,
   T_TRACKED,
+  T_LONGNAME,  // a payload whose demangled type name is several hundred characters long (printing / error messages)
   T_N
 };
+using LongNamed = std::map<std::string, std::vector<std::map<std::string, std::vector<std::string>>>>;
+static LongNamed lval(int v)
+{
+  LongNamed m;
+  std::map<std::string, std::vector<std::string>> inner;
+  inner["inner"].push_back("payload-" + std::to_string(v));
+  m["k" + std::to_string(v)].push_back(inner);
+  return m;
+}
 static std::string sval(int v)
 {
   return (v & 1) ? "s" + std::to_string(v) : "a-long-heap-allocated-string-payload-number-" + std::to_string(v);
@@ -44,6 +56,8 @@ static Any makeAny(int t, int v)
     return Any(v + 0.5f);
   case T_STRING:
     return Any(sval(v));
+  case T_LONGNAME:
+    return Any(lval(v));
   default:
     return Any(Tracked(v));
   }
@@ -59,6 +73,9 @@ static void assignAny(Any &a, int t, int v)
     break;
   case T_STRING:
     a = sval(v);
+    break;
+  case T_LONGNAME:
+    a = lval(v);
     break;
   default:
     a = Tracked(v);
@@ -152,6 +169,7 @@ static void any_case(const std::vector<Op> &ops, pbt::Ctx &ctx)
         PBT_ASSERT_MSG(getThrows<float>(x) == (m[a].type != T_FLOAT), "get<float> on stored type " << m[a].type);
         PBT_ASSERT_MSG(getThrows<std::string>(x) == (m[a].type != T_STRING), "get<string> on stored type " << m[a].type);
         PBT_ASSERT_MSG(getThrows<Tracked>(x) == (m[a].type != T_TRACKED), "get<Tracked> on stored type " << m[a].type);
+        PBT_ASSERT_MSG(getThrows<LongNamed>(x) == (m[a].type != T_LONGNAME), "get<LongNamed> on stored type " << m[a].type);
         // near-miss types must be rejected too
         PBT_ASSERT(getThrows<unsigned>(x) && getThrows<double>(x) && getThrows<const char *>(x) && getThrows<long>(x));
         wrongTypeGet = wrongTypeGet || m[a].type != T_NONE;
@@ -172,6 +190,9 @@ static void any_case(const std::vector<Op> &ops, pbt::Ctx &ctx)
           break;
         case T_TRACKED:
           slot[a]->get<Tracked>().set(v);
+          break;
+        case T_LONGNAME:
+          slot[a]->get<LongNamed>() = lval(v);
           break;
         }
         m[a].v = v;
@@ -209,6 +230,7 @@ static void any_case(const std::vector<Op> &ops, pbt::Ctx &ctx)
         PBT_ASSERT_MSG(x.valid() == (m[i].type != T_NONE), "slot " << i << " valid()=" << x.valid() << " model type " << m[i].type);
         PBT_ASSERT(x.is<int>() == (m[i].type == T_INT) && x.is<float>() == (m[i].type == T_FLOAT));
         PBT_ASSERT(x.is<std::string>() == (m[i].type == T_STRING) && x.is<Tracked>() == (m[i].type == T_TRACKED));
+        PBT_ASSERT(x.is<LongNamed>() == (m[i].type == T_LONGNAME));
         PBT_ASSERT(!x.is<double>() && !x.is<unsigned>() && !x.is<char>());
         switch (m[i].type) {
         case T_INT:
@@ -222,6 +244,9 @@ static void any_case(const std::vector<Op> &ops, pbt::Ctx &ctx)
           break;
         case T_TRACKED:
           PBT_ASSERT_MSG(x.get<Tracked>().value() == m[i].v, "slot " << i << " tracked " << x.get<Tracked>().value() << " model " << m[i].v);
+          break;
+        case T_LONGNAME:
+          PBT_ASSERT_MSG(x.get<LongNamed>() == lval(m[i].v), "slot " << i << " long-named payload differs from the model");
           break;
         }
       }
